@@ -31,6 +31,7 @@ type Prim struct {
 	Discard bool         // reader: result unused (expression statement)
 	LenArg  ast.Expr     // reader: ReadBytes(n) / ReadDecimalLen(n) argument
 	Fn      *FuncCtx
+	Target  ast.Expr     // reader: the assignment target when it is not a plain local (*p, x.f, a[i]); re-rendered per frame
 }
 
 // If: two-way branch. Cond is evaluated by the matcher (ast.Expr) or is a switch-case test.
@@ -490,6 +491,7 @@ func (x *Extractor) canonF(fr *frame, e ast.Expr, depth int) (string, bool) {
 // extraction
 
 type walker struct {
+	curTarget ast.Expr // assignment target of the statement being walked (non-ident LHS)
 	x      *Extractor
 	c      *FuncCtx
 	stream types.Object
@@ -615,6 +617,7 @@ func (w *walker) stmt(s ast.Stmt, rest []ast.Stmt) (nodes []Node, stop bool) {
 					}
 				} else if _, ok := l.(*ast.Ident); !ok {
 					label = w.x.canonLabel(w.c, l)
+					w.curTarget = l
 				}
 			} else if len(v.Rhs) == 1 && len(v.Lhs) >= 1 {
 				if id, ok := v.Lhs[0].(*ast.Ident); ok && id.Name != "_" {
@@ -624,6 +627,7 @@ func (w *walker) stmt(s ast.Stmt, rest []ast.Stmt) (nodes []Node, stop bool) {
 				}
 			}
 			out = append(out, w.expr(r, bind, label, false, rest)...)
+			w.curTarget = nil
 		}
 		for _, l := range v.Lhs {
 			if _, ok := l.(*ast.Ident); !ok {
@@ -1338,6 +1342,9 @@ func (w *walker) call(v *ast.CallExpr, out *[]Node, outer bool, bind interface{}
 				visit(a, false)
 			}
 			p := &Prim{Pos: v.Pos(), Kind: kind, Method: fn, Call: v, Fn: w.c, Bind: b, Label: lbl, Discard: discard}
+			if outer && lbl != "" {
+				p.Target = w.curTarget
+			}
 			if p.Bind == nil {
 				p.Bind = v
 			}
